@@ -587,7 +587,7 @@ def validate_traces_generic(specdir, module, cfg, traces, stats, verdict, subjec
             p = rej.get(j)
             if p is None:
                 raise MachineryError("trace %d of shard %d has neither ACCEPT nor REJECT" % (j, i))
-            ev = tr["ev"][p["l"] - 1] if tr["ev"] else {}
+            ev = tr["ev"][min(p["l"], len(tr["ev"])) - 1] if tr["ev"] else {}
             exp = p.get("exp")
             what = "trace-rejected"
             if isinstance(exp, list) and exp and isinstance(exp[0], dict) and "r" in exp[0]:
